@@ -9,6 +9,7 @@
 -/
 import GoluaVerif.Proofs.Ctx
 import GoluaVerif.Proofs.Propagate
+import GoluaVerif.Model.RecoverExpect
 namespace GoluaVerif.Props.C05
 open GoluaVerif.Generated.Resources GoluaVerif.Model.Ctx GoluaVerif.Spec.Quota GoluaVerif.Proofs.Ctx
 open GoluaVerif.Model.CallCtx GoluaVerif.Proofs.CallCtx GoluaVerif.Proofs.Propagate
@@ -114,15 +115,16 @@ termination**: for EVERY well-formed body, from every state satisfying the invar
 is terminated for CPU and the enclosing context is CPU-limited, the call does not return: the
 enclosing context is terminated as well (`killed`), the stack stays aligned, and nothing — no
 operation, no result handed back — happens between the refused request and that termination. -/
-theorem limitless_bracket_cannot_absorb (a : Acc) (d : CtxDef) (body : List Item) (hw : wfBody body = true)
+theorem limitless_bracket_cannot_absorb (a : Acc) (d : CtxDef) (body hs : List Item) (hw : wfBody body = true)
+    (hwh : wfBody hs = true)
     (hi : Inv a.st) (hl : a.st.cur.live = true) (hd : d.hard.Cpu = 0#64) (hL : a.st.cur.hard.Cpu ≠ 0#64)
-    (hk : (runBody { a with st := push a.st d } body).2 = .killed .cpu) :
-    (runItem a (.call d body)).2 = .killed .cpu ∧
-    (runItem a (.call d body)).1.st.cur.status = StatusKilled ∧
-    LowerL (runItem a (.call d body)).1.st.parents a.st.parents ∧
-    (runItem a (.call d body)).1.events = (runBody { a with st := push a.st d } body).1.events ∧
-    (runItem a (.call d body)).1.results = (runBody { a with st := push a.st d } body).1.results :=
-  limitless_bracket_propagates_cpu a d body hw hi hl hd hL hk
+    (hk : (runCall a d body hs).2 = .killed .cpu) :
+    (runItem a (.call d body hs)).2 = .killed .cpu ∧
+    (runItem a (.call d body hs)).1.st.cur.status = StatusKilled ∧
+    LowerL (runItem a (.call d body hs)).1.st.parents a.st.parents ∧
+    (runItem a (.call d body hs)).1.events = (runCall a d body hs).1.events ∧
+    (runItem a (.call d body hs)).1.results = (runCall a d body hs).1.results :=
+  limitless_bracket_propagates_cpu a d body hs hw hwh hi hl hd hL hk
 
 /-- **uninterceptable**: in a CPU-limited context, for every program made of requests and any
 nesting of limit-less brackets, if the program asks for at least what the context has left
@@ -182,15 +184,26 @@ theorem kill_monotone_nested (L L' : BitVec 64) (body : List Item) (hL' : L' ≠
 /-- **a child with a tighter limit of its own dies alone**: if the bracket's own CPU limit is strictly
 below what the parent has left (or the parent is unlimited) and its body is terminated for CPU, the
 call returns normally with a context whose status is `killed`, and the parent stays live. -/
-theorem child_with_own_limit_dies_alone (a : Acc) (d : CtxDef) (body : List Item) (hw : wfBody body = true)
+theorem child_with_own_limit_dies_alone (a : Acc) (d : CtxDef) (body hs : List Item) (hw : wfBody body = true)
+    (hwh : wfBody hs = true)
     (hi : Inv a.st) (hl : a.st.cur.live = true) (hd : d.hard.Cpu ≠ 0#64)
     (htight : a.st.cur.hard.Cpu = 0#64 ∨ d.hard.Cpu.toNat < a.st.cur.hard.Cpu.toNat - a.st.cur.used.Cpu.toNat)
-    (hk : (runBody { a with st := push a.st d } body).2 = .killed .cpu) :
-    (runItem a (.call d body)).2 = .done ∧ (runItem a (.call d body)).1.st.cur.live = true ∧
-    LowerL (runItem a (.call d body)).1.st.parents a.st.parents ∧
-    ∃ r, (runItem a (.call d body)).1.results = r :: (runBody { a with st := push a.st d } body).1.results ∧
+    (hk : (runCall a d body hs).2 = .killed .cpu) :
+    (runItem a (.call d body hs)).2 = .done ∧ (runItem a (.call d body hs)).1.st.cur.live = true ∧
+    LowerL (runItem a (.call d body hs)).1.st.parents a.st.parents ∧
+    ∃ r, (runItem a (.call d body hs)).1.results = r :: (runCall a d body hs).1.results ∧
       r.status = StatusKilled ∧ r.exit = .killed .cpu :=
-  own_limit_dies_alone a d body hw hi hl hd htight hk
+  own_limit_dies_alone a d body hs hw hwh hi hl hd htight hk
+
+/-- **no unclassified recover site** (regenerated instance): every `recover()` in runtime/ and lib/ of
+the current tree — listed by extract/recoversites into `Generated.RecoverSites` on this run — is one
+of the sites read and classified in `Model.RecoverExpect` (same file, function and source hash), the
+classification agrees with the syntactic facts (the sites that must let a termination through do
+re-panic), and the only site that converts every panic into a Lua error is the host-function call of
+lib/golib.  A new or edited recover site makes this `decide` fail until it is classified. -/
+theorem recover_sites_classified :
+    Model.RecoverExpect.allClassified = true ∧ Model.RecoverExpect.consistent = true ∧
+    Model.RecoverExpect.noneCatchableFromLua = true := by decide
 
 /-! ## non-vacuity -/
 
@@ -207,21 +220,21 @@ def interceptDef : CtxDef := ⟨⟨10#64, 0#64, 0#64⟩, Res.zero, 0#16⟩
 /-- `callcontext{kill={cpu=10}}( pcall(pcall(big)) ; 9 more ticks )`: the witness of the former
 `uninterceptable_counterexample` — the request of 20 now terminates the limited context itself -/
 def interceptProg : Item :=
-  .call interceptDef [.call CtxDef.none [.call CtxDef.none [.op (.reqCpu 20#64)]], .op (.reqCpu 1#64), .op (.reqCpu 8#64)]
+  .call interceptDef [.call CtxDef.none [.call CtxDef.none [.op (.reqCpu 20#64)] []] [], .op (.reqCpu 1#64), .op (.reqCpu 8#64)] []
 
 example : (exec St.init interceptProg).1.events.reverse.map (fun e => (e.depth, e.out)) = [(3, .terminated)] ∧
     (exec St.init interceptProg).1.results.reverse.map (fun r => (r.depth, r.status, r.exit)) =
       [(1, StatusKilled, .killed .cpu)] ∧ (exec St.init interceptProg).1.st = St.init := by decide +kernel
 
 /-- hypotheses of `uninterceptable` / `kill_exact_nested_from_root`: a two-deep pcall nest whose cost is 12 ≥ 10 -/
-example : bodyPcallCpu [.op (.reqCpu 4#64), .call CtxDef.none [.op (.reqCpu 3#64), .call CtxDef.none [.op (.reqCpu 5#64)]]] = true ∧
-    bodyCost [.op (.reqCpu 4#64), .call CtxDef.none [.op (.reqCpu 3#64), .call CtxDef.none [.op (.reqCpu 5#64)]]] = 12 := by
+example : bodyPcallCpu [.op (.reqCpu 4#64), .call CtxDef.none [.op (.reqCpu 3#64), .call CtxDef.none [.op (.reqCpu 5#64)] []] []] = true ∧
+    bodyCost [.op (.reqCpu 4#64), .call CtxDef.none [.op (.reqCpu 3#64), .call CtxDef.none [.op (.reqCpu 5#64)] []] []] = 12 := by
   decide
 
 /-- own tighter limit: the inner `callcontext{kill={cpu=3}}` is killed alone, the outer goes on and ends `done` -/
-example : (exec St.init (.call interceptDef [.call ⟨⟨3#64, 0#64, 0#64⟩, Res.zero, 0#16⟩ [.op (.reqCpu 5#64)], .op (.reqCpu 2#64)])).1.results.reverse.map
+example : (exec St.init (.call interceptDef [.call ⟨⟨3#64, 0#64, 0#64⟩, Res.zero, 0#16⟩ [.op (.reqCpu 5#64)] [], .op (.reqCpu 2#64)] [])).1.results.reverse.map
       (fun r => (r.depth, r.status, r.exit)) = [(2, StatusKilled, .killed .cpu), (1, StatusDone, .done)] := by decide +kernel
 
-example : wfBody [.call CtxDef.none [.op (.reqCpu 20#64)], .op (.reqCpu 1#64)] = true := by decide
+example : wfBody [.call CtxDef.none [.op (.reqCpu 20#64)] [], .op (.reqCpu 1#64)] = true := by decide
 
 end GoluaVerif.Props.C05
